@@ -76,18 +76,18 @@ def h(a: int, v) -> tuple[int, str]: ...
 '''
 PARENTS = ["none", "module", "class", "function", "init", "property", "function-iter", "function-tuple"]
 
-_LEN = {"quick": (2, 2), "thorough": (3, 3)}  # (tokens over the full alphabet, tokens after a header)
-_DEV = {"quick": 1, "thorough": 2}
+# plan: list of ((tokens over the full alphabet, tokens after a header), option deviations); later entries only add what earlier ones lack
+_PLAN = {"quick": [((2, 2), 1)], "thorough": [((3, 3), 1), ((2, 2), 2)]}
 
 
 def bounds(tier):
-    return {"tokens": {k: len(v) for k, v in TOKENS.items()}, "max_len_full_alphabet": _LEN[tier][0], "max_tokens_after_header": _LEN[tier][1],
-            "option_deviations": _DEV[tier], "parents": PARENTS}
+    return {"tokens": {k: len(v) for k, v in TOKENS.items()}, "plan": [{"max_len_full_alphabet": l[0], "max_tokens_after_header": l[1], "option_deviations": d} for l, d in _PLAN[tier]],
+            "parents": PARENTS}
 
 
-def sequences(style, tier):
+def sequences(style, lens):
     toks = TOKENS[style]
-    full, after = _LEN[tier]
+    full, after = lens
     for n in range(0, full + 1):
         yield from itertools.product(range(len(toks)), repeat=n)
     heads = [toks.index(h) for h in HEADERS[style]]
@@ -225,14 +225,22 @@ def run_shard(shard, tier):
     acc = Acc()
     fn = env["fns"][style]
     defaults = env["defaults"][style]
-    vectors = []
-    for ov in option_vectors(style, _DEV[tier]):
-        vectors.append({n: (not defaults[n]) for n in ov})
     toks = TOKENS[style]
     seen_texts = set()
     mod_json0 = env["mod"].as_json(full=False)
     headers = set(HEADERS[style]) | {"----------", "---", "-"}
-    for idx, seq in enumerate(sequences(style, tier)):
+    work = []
+    for lens, dev in _PLAN[tier]:
+        vecs = [{n: (not defaults[n]) for n in ov} for ov in option_vectors(style, dev)]
+        work.append((lens, vecs))
+    for pi, (lens, vectors) in enumerate(work):
+      if pi > 0:
+          seen_texts = set()
+          done_vecs = [jd for jd in map(lambda v: tuple(sorted(v.items())), work[0][1])]
+          vectors = [v for v in vectors if tuple(sorted(v.items())) not in done_vecs]
+          if not vectors:
+              continue
+      for idx, seq in enumerate(sequences(style, lens)):
         if idx % nparts != part:
             continue
         text = "\n".join(toks[i] for i in seq)
